@@ -10,13 +10,15 @@ vars == <<c, done>>
 Auths == {"none", "basic", "bearer", "authorization"}
 JobAuths == {"none", "basic", "bearer", "authorization", "oauth2"}
 \* a case: alerting with / without basic auth; one or two jobs; 0-2 remote write and 0-2 remote read entries
-Cases == [am : {"none", "basic"}, jobs : (JobAuths \X JobAuths) \cup {<<a>> : a \in JobAuths},
+\* am "empty": an alerting section that is present but has no alertmanagers; rules: a rule_files section present
+Cases == [am : {"none", "basic", "empty"}, rules : BOOLEAN, jobs : (JobAuths \X JobAuths) \cup {<<a>> : a \in JobAuths},
           rw : {<<>>} \cup {<<a>> : a \in Auths} \cup (Auths \X Auths),
           rr : {<<>>} \cup {<<a>> : a \in Auths \ {"authorization"}} \cup (({"basic", "bearer"}) \X {"basic", "bearer"})]
 
 Slot(sec, key, val, wb) == [sec |-> sec, key |-> key, val |-> val, wasBearer |-> wb]
 AuthSlots(sec, a, tag) ==
   CASE a = "none" -> <<>>
+    [] a = "empty" -> <<>>
     [] a = "basic" -> <<Slot(sec, "password", tag \o "-pw", FALSE)>>
     [] a = "bearer" -> <<Slot(sec, "bearer_token", tag \o "-tok", TRUE)>>
     [] a = "authorization" -> <<Slot(sec, "credentials", tag \o "-cred", FALSE)>>
